@@ -29,19 +29,19 @@ import (
 // Scenario describes one run. Everything that influences the run is here
 // (the replay artefact of a violation is a Scenario).
 type Scenario struct {
-	ID       int    `json:"id"`
-	Seed     int64  `json:"seed"`
-	Engine   string `json:"engine"` // disk | mem | ud
-	Unsafe   bool   `json:"unsafe"` // disk only: unsafe_batch
-	Workers  int    `json:"workers"`
-	Ops      int    `json:"ops"`      // calls per worker before it waits for Close
-	Late     int    `json:"late"`     // calls per worker after Close returned
-	Prepop   int    `json:"prepop"`   // documents indexed before the workers start
-	Perturb  int    `json:"perturb"`  // 0 none, 1 light, 2 heavy (hook delays)
-	CloseAt  string `json:"close_at"` // "ops:<n>" after n calls began | "gate:<point>:<k>" at the k-th hit of a hook point
-	Hazard   string `json:"hazard"`   // "" | fd | close2 | fmmem   (dedicated hazard scenarios)
-	Dir      string `json:"dir"`      // scratch directory (disk index, copy targets)
-	WatchdogS int   `json:"watchdog_s"`
+	ID        int    `json:"id"`
+	Seed      int64  `json:"seed"`
+	Engine    string `json:"engine"` // disk | mem | ud
+	Unsafe    bool   `json:"unsafe"` // disk only: unsafe_batch
+	Workers   int    `json:"workers"`
+	Ops       int    `json:"ops"`      // calls per worker before it waits for Close
+	Late      int    `json:"late"`     // calls per worker after Close returned
+	Prepop    int    `json:"prepop"`   // documents indexed before the workers start
+	Perturb   int    `json:"perturb"`  // 0 none, 1 light, 2 heavy (hook delays)
+	CloseAt   string `json:"close_at"` // "ops:<n>" after n calls began | "gate:<point>:<k>" at the k-th hit of a hook point
+	Hazard    string `json:"hazard"`   // "" | fd | close2 | fmmem   (dedicated hazard scenarios)
+	Dir       string `json:"dir"`      // scratch directory (disk index, copy targets)
+	WatchdogS int    `json:"watchdog_s"`
 }
 
 // Event is one record of the trace validated by TLC (spec/trace/TraceProto.tla).
@@ -61,19 +61,19 @@ type Event struct {
 
 // Result of one scenario.
 type Result struct {
-	Scenario  Scenario `json:"scenario"`
-	Events    []Event  `json:"events"`
-	Calls     int      `json:"calls"`
-	Panics    []string `json:"panics,omitempty"`     // recovered panics in client calls (with stack)
-	AsyncErrs []string `json:"async_errs,omitempty"` // scorch async error callback
-	LoopPanic []string `json:"loop_panic,omitempty"` // async errors that are recovered loop panics
-	Leaks     []string `json:"leaks,omitempty"`      // leaked goroutines / fds (descriptions)
-	Hang      *Hang    `json:"hang,omitempty"`
-	Slow      bool     `json:"slow,omitempty"` // watchdog fired but the run completed once delays were released
-	InFlightAtClose []string `json:"inflight_at_close,omitempty"`
-	MaxCancelLatencyUs int64 `json:"max_cancel_latency_us"`
-	WallMs    int64    `json:"wall_ms"`
-	Err       string   `json:"err,omitempty"` // machinery error (setup failed)
+	Scenario           Scenario `json:"scenario"`
+	Events             []Event  `json:"events"`
+	Calls              int      `json:"calls"`
+	Panics             []string `json:"panics,omitempty"`     // recovered panics in client calls (with stack)
+	AsyncErrs          []string `json:"async_errs,omitempty"` // scorch async error callback
+	LoopPanic          []string `json:"loop_panic,omitempty"` // async errors that are recovered loop panics
+	Leaks              []string `json:"leaks,omitempty"`      // leaked goroutines / fds (descriptions)
+	Hang               *Hang    `json:"hang,omitempty"`
+	Slow               bool     `json:"slow,omitempty"` // watchdog fired but the run completed once delays were released
+	InFlightAtClose    []string `json:"inflight_at_close,omitempty"`
+	MaxCancelLatencyUs int64    `json:"max_cancel_latency_us"`
+	WallMs             int64    `json:"wall_ms"`
+	Err                string   `json:"err,omitempty"` // machinery error (setup failed)
 }
 
 var (
@@ -95,17 +95,17 @@ func init() {
 
 // hookCfg is the state the VerifHook callback works with during a scenario.
 type hookCfg struct {
-	rec       *recorder
-	seed      uint64
-	perturb   int
-	released  atomic.Bool // all injected delays off (hang analysis / teardown)
-	gatePoint string
-	gateK     int64
-	gateHits  atomic.Int64
-	gateFire  func() // triggers the closer (idempotent)
+	rec        *recorder
+	seed       uint64
+	perturb    int
+	released   atomic.Bool // all injected delays off (hang analysis / teardown)
+	gatePoint  string
+	gateK      int64
+	gateHits   atomic.Int64
+	gateFire   func()        // triggers the closer (idempotent)
 	closeBegun chan struct{} // closed at hook close.begin
-	cbOnce    sync.Once
-	ctr       atomic.Uint64
+	cbOnce     sync.Once
+	ctr        atomic.Uint64
 }
 
 type recorder struct {
@@ -214,18 +214,18 @@ func classify(err error) string {
 }
 
 type runner struct {
-	sc   Scenario
-	rec  *recorder
-	idx  bleve.Index
-	adv  *scorch.Scorch
-	res  *Result
-	mu   sync.Mutex // protects res.Panics, open-call table
-	open map[int]*openCall
-	nBegun atomic.Int64
-	closeTrig chan struct{}
-	trigOnce  sync.Once
-	closeRet  chan struct{}
-	copyN     atomic.Int64
+	sc           Scenario
+	rec          *recorder
+	idx          bleve.Index
+	adv          *scorch.Scorch
+	res          *Result
+	mu           sync.Mutex // protects res.Panics, open-call table
+	open         map[int]*openCall
+	nBegun       atomic.Int64
+	closeTrig    chan struct{}
+	trigOnce     sync.Once
+	closeRet     chan struct{}
+	copyN        atomic.Int64
 	maxCancelLat atomic.Int64
 }
 
